@@ -1,11 +1,11 @@
 (* C09  Each JFA training phase is exact EM: its marginal likelihood never decreases.
    Proved here: the D phase in full (any numbers of components, features, classes, sessions) and its
-   scalar core; the V phase in full for a rank-1 speaker subspace (the code's e_step_v / m_step_v, any
+   scalar core; the V phase and the U phase in full for rank-1 subspaces (the code's e_step_v / m_step_v and e_step_u / m_step_u, any
    numbers of components, features, classes, sessions); the V and U phases for rank > 1 need
    ln det A <= tr A - n (no determinant theory over R is installed) and are validated numerically by the
    check - see DESIGN.md. *)
 From Coq Require Import Reals List.
-From BLE Require Import Num.InstR Model.FA Proofs.RLemmas Proofs.FAEnroll Proofs.JFATrain Proofs.JFARank1.
+From BLE Require Import Num.InstR Model.FA Proofs.RLemmas Proofs.FAEnroll Proofs.JFATrain Proofs.JFARank1 Proofs.JFARank1U.
 Import ListNotations FR.
 Open Scope R_scope.
 
@@ -45,3 +45,26 @@ Theorem C09_phase_V_rank1_iteration_monotone (inv : list (list R) -> list (list 
   marginal_v D u (fV F) classes <= marginal_v D u (fV (jfa_iter_v inv rU 1 D u classes F)) classes.
 Proof. exact (phase_v_monotone_rank1 inv C D rU u F classes). Qed.
 Print Assumptions C09_phase_V_rank1_iteration_monotone.
+
+(* The U phase with a rank-1 session subspace (speaker factors y held fixed, z = 0 as in the JFA trainer): the code's
+   iteration is the exact EM step on the column U, leaves V and D alone and never decreases the phase marginal likelihood
+   (the scalar channel factor of every session integrated out). *)
+Theorem C09_phase_U_rank1_iteration_is_the_em_step (inv : list (list R) -> list (list R)) (C D rV : nat) (u : ubm) (F : fa)
+    (classes : list (list gstat)) (ys : list (option (list R))) :
+  inv1_ok inv -> ubm_ok C D u -> fa_ok C D 1 rV F -> Forall (Forall (gstat_ok C D)) classes ->
+  length ys = length classes -> Forall (yopt_ok rV) ys ->
+  Forall (fun A1c => nth 0 (nth 0 A1c []) 0 <> 0) (fst (acc_u_jfa inv D u F classes ys)) ->
+  vcol (fU (jfa_iter_u inv 1 D u classes ys F)) = em_v_step (vcol (fU F)) (vsuper u) (sessions_NG D u F classes ys).
+Proof. exact (jfa_iter_u_rank1 inv C D rV u F classes ys). Qed.
+Print Assumptions C09_phase_U_rank1_iteration_is_the_em_step.
+
+Theorem C09_phase_U_rank1_iteration_monotone (inv : list (list R) -> list (list R)) (C D rV : nat) (u : ubm) (F : fa)
+    (classes : list (list gstat)) (ys : list (option (list R))) :
+  inv1_ok inv -> ubm_ok C D u -> fa_ok C D 1 rV F -> Forall (Forall (gstat_ok C D)) classes ->
+  length ys = length classes -> Forall (yopt_ok rV) ys ->
+  Forall (fun A1c => 0 < nth 0 (nth 0 A1c []) 0) (fst (acc_u_jfa inv D u F classes ys)) ->
+  let F' := jfa_iter_u inv 1 D u classes ys F in
+  fV F' = fV F /\ fD F' = fD F
+  /\ marginal_u D u F (fU F) classes ys <= marginal_u D u F (fU F') classes ys.
+Proof. exact (phase_u_monotone_rank1 inv C D rV u F classes ys). Qed.
+Print Assumptions C09_phase_U_rank1_iteration_monotone.
